@@ -176,18 +176,19 @@ def check(ctx: Ctx, rep: Report):
     base = prog.cls("ProtocolCommand")
     n4 = 0
     for ci in prog.all_subclasses(base):
-        rb = ci.methods.get("request_bytes")
-        if rb is None:
-            continue
-        mut = any(a == "request" for x in ast.walk(rb.node) if isinstance(x, ast.stmt) for a, _, _ in self_store(x))
-        if not mut:
-            continue
-        n4 += 1
-        bad = [s.name for s in prog.all_subclasses(ci) if s.name in shared]
-        rep.check(not bad, "C20.R4", "request-bytes:%s" % ci.name, rb.loc(), "%s.request_bytes rewrites self.request; its subclasses are created per inverter only" % ci.name,
-                  bad="%s.request_bytes rewrites self.request but %s is instantiated at %s and shared by every inverter" % (ci.name, bad, [shared[b] for b in bad]))
+        for m in ci.methods.values():
+            if m.name == "__init__":
+                continue
+            stores = sorted({a for x in ast.walk(m.node) if isinstance(x, ast.stmt) for a, _, _ in self_store(x)})
+            if not stores:
+                continue
+            n4 += 1
+            bad = [s.name for s in prog.all_subclasses(ci) if s.name in shared]
+            rep.check(not bad, "C20.R4", "command-mutation:%s.%s" % (ci.name, m.name), m.loc(),
+                      "%s.%s rewrites self.%s; %s and its subclasses are created per inverter only" % (ci.name, m.name, ", self.".join(stores), ci.name),
+                      bad="%s.%s rewrites self.%s but %s is instantiated at %s and shared by every inverter" % (ci.name, m.name, ", self.".join(stores), bad, [shared[b] for b in bad]))
     if n4 == 0:
-        raise AnalysisError("no request_bytes that rewrites self.request found (the Modbus/TCP transaction id stamp)")
+        rep.ok("C20.R4", "command-mutation:none", base.module.relpath, "no command class mutates itself after construction")
 
 
 def _locals(fn: FuncInfo) -> Set[str]:
